@@ -14,7 +14,7 @@ From Coq Require Import NArith ZArith Lia List Bool.
 From Coq Require Import ZifyN ZifyNat ZifyBool.
 From RecordUpdate Require Import RecordSet.
 From V Require Import Base.U64 Base.Outcome Ssz.SszCore Beacon.Config Beacon.Schemas Beacon.State
-  Beacon.Spec.Helpers Beacon.Spec.Epoch Beacon.Spec.Block Beacon.Impl.BlockOps Beacon.Refine.BlockLemmas Beacon.Refine.BlockEpc.
+  Beacon.Spec.Helpers Beacon.Spec.Epoch Beacon.Spec.Block Beacon.Impl.BlockOps Beacon.Refine.BlockLemmas Beacon.Refine.BlockEpc Beacon.Refine.RejectRules.
 Import ListNotations RecordSetNotations.
 Local Open Scope list_scope.
 Local Open Scope N_scope.
@@ -374,36 +374,147 @@ Section SyncAggregate.
     change (4 * 2 ^ 16 * (2 ^ 32 - 1)) with 1125899906580480 in H. change (2 ^ 50) with 1125899906842624 in *. lia.
   Qed.
 
+  Lemma div_chain_le a b d : a / b / d <= a.
+  Proof. etransitivity; apply Ndiv_le. Qed.
+
   Lemma sync_rewards_ok st epc :
     cfg_sane E -> epc_ok E st epc -> get_total_active_balance E st < 2 ^ 63 ->
-    sync_rewards_impl E epc = Ok (sync_pr st, sync_propr st) /\ sync_pr st < 2 ^ 50 /\ sync_propr st < 2 ^ 50.
+    sync_rewards_impl E epc = Ok (sync_pr st, sync_propr st)
+    /\ sync_pr st * SYNC_COMMITTEE_SIZE c < 2 ^ 50 /\ sync_propr st <= sync_pr st.
   Proof.
-    intros Hc Hepc HT. destruct Hc, Hepc.
-    pose proof (total_active_ge_incr st) as HIT.
-    pose proof (base_rewards_bound _ _ (BASE_REWARD_FACTOR (cfg E)) cs_incr_pos HIT HT cs_factor_hi) as [Hs Hb].
-    unfold sync_rewards_impl, sync_pr, sync_propr, get_base_reward_per_increment, integer_squareroot. unfold c in *.
-    rewrite eo_total, eo_sqrt. unfold integer_squareroot.
+    intros Hc Hepc HT.
+    pose proof (cs_incr_pos E Hc) as HIpos. pose proof (cs_incr_hi E Hc) as HIhi. pose proof (cs_factor_hi E Hc) as HF.
+    pose proof (cs_spe_pos E Hc) as Hspe. pose proof (cs_sync_pos E Hc) as Hsync.
+    pose proof (eo_total E st epc Hepc) as Htot. pose proof (eo_sqrt E st epc Hepc) as Hsq.
+    clear Hc Hepc.
+    pose proof (total_active_ge_incr st) as HIT. unfold c in HIT.
+    pose proof (base_rewards_bound _ _ (BASE_REWARD_FACTOR (cfg E)) HIpos HIT HT HF) as [Hs Hb].
+    unfold sync_propr, sync_pr. unfold sync_rewards_impl, get_base_reward_per_increment, integer_squareroot. unfold c.
+    rewrite Htot, Hsq. unfold integer_squareroot.
     set (T := get_total_active_balance E st) in *. set (I := EFFECTIVE_BALANCE_INCREMENT (cfg E)) in *.
     set (F := BASE_REWARD_FACTOR (cfg E)) in *.
-    rewrite (div64_ok T I) by exact cs_incr_pos. cbn [bind].
+    rewrite (div64_ok T I) by exact HIpos. cbn [bind].
     assert (HIF : I * F < two64).
     { assert (I * F <= 2 ^ 40 * 2 ^ 16) by (apply N.mul_le_mono; assumption).
       change (2 ^ 40 * 2 ^ 16) with 72057594037927936 in H. unfold two64. lia. }
     rewrite (mul64_small I F HIF). rewrite div64_ok by exact Hs. cbn [bind].
     set (tbr := I * F / N.sqrt T * (T / I)) in *.
     change (2 ^ 50) with 1125899906842624 in *.
+    clear HT HIT HIF HIhi HF Htot Hsq Hs.
     rewrite (mul64_small (I * F / N.sqrt T) (T / I)) by (unfold two64; fold tbr; lia). fold tbr.
     change SYNC_REWARD_WEIGHT with 2. change WEIGHT_DENOMINATOR with 64. change PROPOSER_WEIGHT with 8.
     rewrite (mul64_small tbr 2) by (unfold two64; lia).
-    rewrite div64_ok by exact cs_spe_pos. cbn [bind]. rewrite div64_ok by exact cs_sync_pos. cbn [bind].
+    rewrite div64_ok by exact Hspe. cbn [bind]. rewrite div64_ok by exact Hsync. cbn [bind].
     set (pr := tbr * 2 / 64 / SLOTS_PER_EPOCH (cfg E) / SYNC_COMMITTEE_SIZE (cfg E)).
-    assert (Hpr : pr <= tbr).
-    { unfold pr. etransitivity; [apply N.div_le_upper_bound with (q := tbr * 2 / 64 / SLOTS_PER_EPOCH (cfg E)); [lia|]|].
-      - nia.
-      - etransitivity; [apply N.div_le_upper_bound with (q := tbr * 2 / 64); [lia|nia]|].
-        apply N.div_le_upper_bound; lia. }
+    assert (Hpr : pr * SYNC_COMMITTEE_SIZE (cfg E) <= tbr).
+    { unfold pr. rewrite N.mul_comm. etransitivity; [apply N.mul_div_le; lia|].
+      etransitivity; [apply Ndiv_le|]. apply N.div_le_upper_bound; lia. }
+    assert (Hpr' : pr <= tbr) by nia.
     rewrite (mul64_small pr 8) by (unfold two64; lia).
     split; [reflexivity|]. split; [lia|].
-    assert (pr * 8 / (64 - 8) <= pr) by (apply N.div_le_upper_bound; lia). lia.
+    apply N.div_le_upper_bound; lia.
+  Qed.
+
+  (* --- block root and epoch of the previous slot --- *)
+  Lemma sync_block_root st :
+    0 < slot st -> 0 < SLOTS_PER_HISTORICAL_ROOT c ->
+    get_block_root_at_slot E st (N.max (slot st) 1 - 1) = nthN (block_roots st) ((slot st - 1) mod SLOTS_PER_HISTORICAL_ROOT c).
+  Proof.
+    intros Hs Hh. unfold get_block_root_at_slot. fold c.
+    replace (N.max (slot st) 1 - 1) with (slot st - 1) by lia.
+    assert (Hc : (slot st - 1 <? slot st) && (slot st <=? slot st - 1 + SLOTS_PER_HISTORICAL_ROOT c) = true).
+    { apply andb_true_iff. split; [apply N.ltb_lt|apply N.leb_le]; lia. }
+    rewrite Hc. reflexivity.
+  Qed.
+
+  Lemma go_fold_bound pr ibs : forall bals M,
+    (forall x, In x bals -> x <= M) ->
+    forall x, In x (fold_left (go_step pr) ibs bals) -> x <= M + N.of_nat (length ibs) * pr.
+  Proof.
+    induction ibs as [|[i b] r IH]; intros bals M HM x Hx; cbn [fold_left length] in *.
+    - apply HM in Hx. lia.
+    - apply (IH _ (M + pr)) in Hx; [lia|]. apply go_balance_bound. exact HM.
+  Qed.
+  Lemma go_fold_length pr ibs : forall bals, length (fold_left (go_step pr) ibs bals) = length bals.
+  Proof. induction ibs as [|ib r IH]; intros bals; cbn [fold_left]; [reflexivity|]. rewrite IH. apply go_step_length. Qed.
+
+  Lemma find_pubkey_lt pk vs r : find_pubkey pk vs 0 = Some r -> r < N.of_nat (length vs).
+  Proof.
+    intros H. apply find_pubkey_spec in H. destruct H as (k & v & -> & Hk & _).
+    assert (nth_error vs k <> None) by congruence. apply nth_error_Some in H. lia.
+  Qed.
+  Lemma all_some_forall {A B} (g : A -> option B) (P : B -> Prop) l r :
+    (forall a b, g a = Some b -> P b) -> all_some (map g l) = Some r -> forall b, In b r -> P b.
+  Proof.
+    intros Hg. revert r. induction l as [|a l IH]; cbn [map all_some]; intros r H b Hb.
+    - injection H as <-. destruct Hb.
+    - destruct (g a) as [b0|] eqn:Ha; [|discriminate]. destruct (all_some (map g l)) as [r'|]; [|discriminate].
+      injection H as <-. destruct Hb as [<-|Hb]; [eapply Hg; exact Ha|eapply IH; [reflexivity|exact Hb]].
+  Qed.
+  Lemma all_some_map_length {A B} (g : A -> option B) l r : all_some (map g l) = Some r -> length r = length l.
+  Proof. intros H. apply all_some_length in H. rewrite map_length in H. exact H. Qed.
+
+  (* Impl = Spec (acceptance AND rejection, never a panic) for every state and aggregate outside the refuted shape *)
+  Theorem sync_aggregate_refines_partial st epc sa :
+    cfg_sane E -> epc_ok E st epc -> st_bounds E st ->
+    0 < slot st ->
+    N.of_nat (length (vbits (vfield sa 0))) = SYNC_COMMITTEE_SIZE c ->                      (* a decoded Bitvector *)
+    N.of_nat (length (sc_pubkeys (current_sync_committee st))) = SYNC_COMMITTEE_SIZE c ->  (* a decoded Vector *)
+    (forall p, get_beacon_proposer_index E st = Some p ->
+       p < N.of_nat (length (validators st))
+       /\ ~ sync_bad p (sync_pr st) (sync_propr st) (combine (be_sync_indices epc) (vbits (vfield sa 0))) (balances st) 0) ->
+    process_sync_aggregate_impl E epc st sa
+    = match process_sync_aggregate E st sa with Some st' => Ok st' | None => Err end.
+  Proof.
+    intros Hc Hepc Hb Hslot Hbits Hpks Hprop.
+    rewrite process_sync_aggregate_nf. cbv zeta.
+    unfold process_sync_aggregate_impl. cbv zeta. fold c.
+    set (bits := vbits (vfield sa 0)) in *.
+    rewrite Hbits, N.eqb_refl. cbn [check bind].
+    rewrite (eo_sync_pubkeys E st epc Hepc).
+    rewrite sync_select_ok by lia. cbn [bind].
+    assert (Hs0 : (slot st =? GENESIS_SLOT) = false) by (apply N.eqb_neq; unfold GENESIS_SLOT; lia). rewrite Hs0.
+    rewrite div64_ok by (apply (cs_spe_pos E Hc)). cbn [bind].
+    assert (Hh0 : (SLOTS_PER_HISTORICAL_ROOT c =? 0) = false) by (apply N.eqb_neq; pose proof (cs_sphr_pos E Hc); fold c in H; lia).
+    rewrite Hh0. cbn [bind].
+    rewrite (sync_block_root st Hslot (cs_sphr_pos E Hc)).
+    replace (N.max (slot st) 1 - 1) with (slot st - 1) by lia.
+    destruct (nthN (block_roots st) ((slot st - 1) mod SLOTS_PER_HISTORICAL_ROOT c)) as [root|]; [|reflexivity].
+    cbn [of_opt bind]. unfold eth2_fast_aggregate_verify, compute_epoch_at_slot. fold c.
+    match goal with |- context [check ?g] => destruct g end; [|reflexivity]. cbn [check bind].
+    destruct (sync_rewards_ok st epc Hc Hepc (sb_total E st Hb)) as (Hrw & Hprn & Hpp). rewrite Hrw. cbn [bind].
+    rewrite (eo_sync_indices E st epc Hepc).
+    pose proof (eo_sync_indices E st epc Hepc) as Hidx.
+    assert (Hlenidx : length (be_sync_indices epc) = length (sc_pubkeys (current_sync_committee st))).
+    { eapply all_some_map_length. exact Hidx. }
+    assert (Hinr : forall i, In i (be_sync_indices epc) -> i < N.of_nat (length (balances st))).
+    { rewrite (sb_lens E st Hb). eapply all_some_forall; [|exact Hidx]. intros pk r. apply find_pubkey_lt. }
+    assert (HM : forall x, In x (balances st) -> x <= 2 ^ 63) by (intros x Hx; apply (sb_bal E st Hb) in Hx; lia).
+    assert (Hnpr : N.of_nat (length bits) * sync_pr st < 2 ^ 50) by (rewrite Hbits, N.mul_comm; exact Hprn).
+    rewrite (sync_loop_ok (sync_pr st) bits (be_sync_indices epc) (balances st) (2 ^ 63)); try assumption; try lia;
+      [|change (2 ^ 63) with 9223372036854775808; change (2 ^ 50) with 1125899906842624 in Hnpr; unfold two64; lia].
+    cbn [bind]. rewrite <- (eo_proposer E st epc Hepc).
+    destruct (be_proposer epc) as [p|] eqn:Hp; [|reflexivity]. cbn [of_opt bind].
+    rewrite (eo_proposer E st epc Hepc) in Hp. destruct (Hprop p Hp) as [Hpr Hgood].
+    set (G := fold_left (go_step (sync_pr st)) (combine (be_sync_indices epc) bits) (balances st)).
+    assert (HpG : p < N.of_nat (length G)) by (unfold G; rewrite go_fold_length, (sb_lens E st Hb); exact Hpr).
+    destruct (nthN_lt_Some G p HpG) as [gp Hgp].
+    unfold go_increase_balance. rewrite Hgp.
+    assert (Hgpb : gp <= 2 ^ 63 + N.of_nat (length (combine (be_sync_indices epc) bits)) * sync_pr st).
+    { apply (go_fold_bound (sync_pr st) _ (balances st) (2 ^ 63) HM). unfold nthN in Hgp. eapply nth_error_In. exact Hgp. }
+    rewrite combine_length in Hgpb.
+    assert (Hcnt : N.of_nat (length (select_bits bits (sc_pubkeys (current_sync_committee st)))) <= N.of_nat (length bits)).
+    { pose proof (select_bits_length_le bits (sc_pubkeys (current_sync_committee st))). lia. }
+    assert (Hmul : sync_propr st * N.of_nat (length (select_bits bits (sc_pubkeys (current_sync_committee st)))) < 2 ^ 50).
+    { eapply N.le_lt_trans; [|exact Hnpr]. rewrite (N.mul_comm (N.of_nat (length bits))). apply N.mul_le_mono; assumption. }
+    change (2 ^ 63) with 9223372036854775808 in *. change (2 ^ 50) with 1125899906842624 in *.
+    rewrite mul64_small by (unfold two64; lia). rewrite add64_small by (unfold two64; nia).
+    rewrite (select_bits_parts bits _ (be_sync_indices epc)) by lia.
+    rewrite (setN_updN G p (fun y => y + sync_propr st * parts (combine (be_sync_indices epc) bits)) gp Hgp).
+    cbn [bind].
+    assert (Hex : spec_loop p (sync_pr st) (sync_propr st) (combine (be_sync_indices epc) bits) (balances st)
+                  = go_batched p (sync_pr st) (sync_propr st) (combine (be_sync_indices epc) bits) (balances st)).
+    { apply sync_batching_exact; [rewrite (sb_lens E st Hb); exact Hpr|exact Hgood]. }
+    rewrite Hex. reflexivity.
   Qed.
 End SyncAggregate.
